@@ -8,7 +8,8 @@ PROP = {
                                "SwimVerif.Model.SupplyLane", "SwimVerif.Proofs.SupplyLane",
                                "SwimVerif.Proofs.SupplyCompose",
                                "SwimVerif.Model.ReadFeed", "SwimVerif.Proofs.ReadFeed",
-                               "SwimVerif.Model.CommandLane", "SwimVerif.Proofs.CommandLane"],
+                               "SwimVerif.Model.CommandLane", "SwimVerif.Proofs.CommandLane",
+                               "SwimVerif.Proofs.AgentCommands"],
     "engines": [
         e2e_engine("C14"),
         wt_engine("C14"),
@@ -17,7 +18,9 @@ PROP = {
         # agent half of supply lanes: the real SupplyLane (push / sync / write_to_buffer)
         {"name": "sup", "crate": "core", "bin": "sv-sup", "machine": "sup",
          "cases": {"quick": 4000, "thorough": 200000}, "min_shard": 1000},
-        # agent half of command + supply lanes: the real agent task (AgentModel) with the harness as the runtime
+        # agent half of command + supply lanes and of agent-sent (ad hoc) commands: the real agent task (AgentModel)
+        # with the harness as the runtime; handlers send bursts of ad hoc commands into a small command channel that
+        # the harness reads a few records at a time with the real CommandMessageDecoder
         {"name": "cl", "crate": "core", "bin": "sv-cl", "machine": "cl",
          "cases": {"quick": 3000, "thorough": 100000}, "min_shard": 500, "nontrivial_min_ops": 5},
         # runtime half of command lanes: the real read task (read_task / LaneSender) under AgentRouteTask
@@ -41,7 +44,11 @@ PROP = {
                   "in pick order, per remote exactly what it sent in the order sent, at most one sender holds "
                   "unflushed data (the needs_flush lane), nothing stranded once idle (with or without the immediate "
                   "flush); at the agent the on_command handler runs once per validly decoded command with its value "
-                  "in order, never for a body that fails to decode. Agent-sent commands: for every "
+                  "in order, never for a body that fails to decode. Agent-sent commands inside the agent task "
+                  "(command_buffer, CommandWriter lending, CommandSendComplete): for every interleaving read ++ channel "
+                  "++ batch in flight ++ buffer = issued, buffered commands always have a write in flight, at "
+                  "quiescence everything issued has been written once, in order per target; composed with the runtime "
+                  "side: what reaches a target is a supersession of what the handlers issued. Runtime side: for every "
                   "append/write/completion sequence on the CommandOutput and every target, channel ++ in flight ++ "
                   "pending is a supersession of the appended commands. Tied to the real Uplinks/SupplyBackpressure "
                   "(wt), CommandOutput (cmd), SupplyLane (sup), the agent task with CommandLane + SupplyLane (cl) and "
